@@ -1585,6 +1585,72 @@ Section Flat.
     reflexivity.
   Qed.
 
+  (* ... and with calls in the subject of the #switch (full expansion): it is expanded first, its result is compared *)
+  Theorem switch_full x cases :
+    forallb flat_item x = true -> forallb (FlatCall.case_calls_ok pfnames lib) cases = true ->
+    o_parserfns opts = true -> o_tfn opts = [] -> o_pfn opts = [] ->
+    exists F, forall stk fuel, (length stk < 98)%nat -> fresh_items stk x = true ->
+      forallb (fun kv => fresh_items stk (snd kv)) cases = true -> (F <= fuel)%nat ->
+      expand_T fuel stk true ((switch_head ++ x) :: map mkcase cases)
+      = Some (add_newline (FlatCall.switch_calls_result lib (strip_i (page_result x)) cases None)).
+  Proof.
+    intros Hc Hm Hpf Htfn Hpfn.
+    assert (Hvs : forallb (forallb flat_item) (map snd cases) = true).
+    { clear -Hm. induction cases as [|[k v] cases IH]; [reflexivity|]. cbn in Hm. apply andb_true_iff in Hm.
+      destruct Hm as [Hkv Hr]. unfold FlatCall.case_calls_ok in Hkv. apply andb_true_iff in Hkv. cbn [snd] in Hkv.
+      cbn [map snd forallb]. rewrite (proj2 Hkv), (IH Hr). reflexivity. }
+    destruct (expand_items_all (map snd cases) Hvs Htfn Hpfn) as [F0 HF0].
+    assert (Hhead : forallb flat_item (switch_head ++ x) = true).
+    { rewrite forallb_app, Hc. reflexivity. }
+    destruct (expand_items_at (switch_head ++ x) Hhead Htfn Hpfn) as [Fc HFc].
+    set (x' := page_result x).
+    assert (Hx' : plain x' = true) by (apply page_result_plain; exact Hc).
+    exists (Fc + length x' + cases_size cases + F0 + 30)%nat.
+    intros stk fuel Hdepth Hfc Hfresh Hf. destruct fuel as [|f]; [lia|]. destruct f as [|f']; [lia|].
+    rewrite expand_T_S. replace (Nat.leb 100 (length stk)) with false by (symmetry; apply Nat.leb_gt; lia).
+    assert (Hfr0 : fresh_items (stk ++ [FTemplateName]) (switch_head ++ x) = true).
+    { rewrite fresh_items_tn. unfold fresh_items. rewrite forallb_app. fold (fresh_items stk x). rewrite Hfc. reflexivity. }
+    rewrite (HFc (stk ++ [FTemplateName]) (S f') ltac:(rewrite app_length; cbn; lia) Hfr0) by lia.
+    rewrite page_result_app, (page_result_of_plain switch_head) by reflexivity. fold x'.
+    cbv beta iota zeta. rewrite strip_switch_head.
+    assert (Hcodes : codes (switch_head ++ rstrip_i x')
+                     = 35 :: 115 :: 119 :: 105 :: 116 :: 99 :: 104 :: 58 :: codes (rstrip_i x')) by reflexivity.
+    rewrite Hcodes. cbn [index_of].
+    replace (35 =? 58) with false by reflexivity. replace (115 =? 58) with false by reflexivity.
+    replace (119 =? 58) with false by reflexivity. replace (105 =? 58) with false by reflexivity.
+    replace (116 =? 58) with false by reflexivity. replace (99 =? 58) with false by reflexivity.
+    replace (104 =? 58) with false by reflexivity. replace (58 =? 58) with true by reflexivity.
+    cbv beta iota. cbn [firstn].
+    assert (Hcanon : Expand.canon_pf pfnames [35; 115; 119; 105; 116; 99; 104] = [35; 115; 119; 105; 116; 99; 104]).
+    { unfold Expand.canon_pf. cbn [collapse_ws_us is_space N.eqb orb]. destruct (in_names _ pfnames); reflexivity. }
+    rewrite Hcanon.
+    assert (Hcl : Expand.classify_pf pfnames [35; 115; 119; 105; 116; 99; 104] = PfSwitch) by reflexivity. rewrite Hcl.
+    cbn [skipn FlatCall.switch_head chars s_switch map app].
+    rewrite expand_pf_S. rewrite Hpf. cbn [negb].
+    set (c0 := lstrip_i (rstrip_i x')).
+    assert (Hc0 : plain c0 = true) by (apply plain_lstrip, plain_rstrip; exact Hx').
+    assert (Lc0 : (length c0 <= length x')%nat).
+    { unfold c0, rstrip_i. assert (Ll : forall y, (length (lstrip_i y) <= length y)%nat).
+      { induction y as [|z y IHy]; [cbn; lia|]. cbn [lstrip_i]. destruct (sp_item z); cbn; lia. }
+      etransitivity; [apply Ll|]. rewrite rev_length. etransitivity; [apply Ll|]. rewrite rev_length. lia. }
+    cbv beta iota zeta.
+    rewrite (expand_recurse_plain pfnames lib opts c0 Hc0) by lia.
+    cbn [option_map].
+    assert (Hstrip : strip_i c0 = strip_i x').
+    { unfold c0, strip_i. rewrite lstrip_idem, lstrip_rstrip_comm, rstrip_idem. reflexivity. }
+    rewrite Hstrip.
+    set (stk2 := ((stk ++ [FFn [35; 115; 119; 105; 116; 99; 104]]) ++ [FFn [35; 115; 119; 105; 116; 99; 104]])).
+    assert (Hd2 : (length stk2 < 100)%nat) by (unfold stk2; rewrite !app_length; cbn; lia).
+    assert (HF : forall v, In v (map snd cases) -> forall fuel, (F0 <= fuel)%nat ->
+                 expand_recurse fuel stk2 true v = Some (page_result v)).
+    { intros v Hv fuel Hfu. apply (HF0 v Hv); [exact Hd2 | | exact Hfu].
+      unfold stk2. rewrite !fresh_items_fn. apply in_map_iff in Hv. destruct Hv as [kv [Hkv Hin]]. subst v.
+      rewrite forallb_forall in Hfresh. exact (Hfresh kv Hin). }
+    rewrite (switch_loop_calls stk2 (strip_i x') (map snd cases) F0 Hd2 HF cases None f' Hm
+               (fun kv Hkv => in_map snd cases kv Hkv) I) by lia.
+    reflexivity.
+  Qed.
+
   Lemma values_plain_nested outer args : forallb (nested_arg_ok outer) args = true ->
     forall num ht, values_plain ht = true -> values_plain (bind_nested args num ht) = true.
   Proof.
